@@ -16,15 +16,17 @@ ALL_OPS = ("Not", "H", "Measure", "QAlloc", "QFree")
 DF_FEATURES = ("load", "nested", "order")
 
 
-def cfg(root, k, depth, emit=False, view=True, ops=ALL_OPS, features=DF_FEATURES):
+def cfg(root, k, depth, emit=False, view=True, ops=ALL_OPS, features=DF_FEATURES, blocks=2, samplek=1, maxargs=2, emit_refused=False):
     tset = lambda xs: "{" + ", ".join(f'"{x}"' for x in xs) + "}"  # noqa: E731
     c = ["INIT Init", "NEXT NextB", f"CONSTANT RootInputs <- {root}", f"CONSTANT MaxCalls = {k}", f"CONSTANT MaxDepth = {depth}",
-         f"CONSTANT Ops = {tset(ops)}", f"CONSTANT Features = {tset(features)}",
+         f"CONSTANT Ops = {tset(ops)}", f"CONSTANT Features = {tset(features)}", f"CONSTANT MaxBlocks = {blocks}", f"CONSTANT SampleK = {samplek}", f"CONSTANT MaxArgs = {maxargs}",
          "INVARIANT FinishedValid", "CHECK_DEADLOCK FALSE"]
     if view:
         c.append("VIEW View")
     if emit:
         c.append("INVARIANT EmitFinished")
+    if emit_refused:
+        c.append("INVARIANT EmitRefused")
     return "\n".join(c) + "\n"
 
 
@@ -41,7 +43,49 @@ def op_of(name):
     return table[name]()
 
 
-def replay(hist, root_inputs):
+def build_template(name):
+    """the stand-alone builder programs HugrBuilder!Templates describes"""
+    from hugr import tys
+    from hugr.build.cfg import Cfg
+    from hugr.build.cond_loop import Conditional, TailLoop
+    from hugr.build.dfg import Dfg
+    from hugr.std.logic import Not
+    if name == "id":
+        d = Dfg(tys.Bool)
+        d.set_outputs(d.inputs()[0])
+        return d
+    if name == "nestext":
+        d = Dfg(tys.Bool)
+        inner = d.add_nested()
+        x = inner.add_op(Not, d.inputs()[0])
+        inner.set_outputs(x)
+        d.set_outputs(inner.parent_node[0])
+        return d
+    if name == "loop":
+        from hugr import ops
+        tl = TailLoop([tys.Bool], [tys.Qubit])
+        b, q = tl.inputs()
+        ctl = tl.add_op(ops.Tag(0, tys.Sum([[tys.Bool], []])), b)
+        tl.set_loop_outputs(ctl, q)
+        return tl
+    if name == "cond":
+        c = Conditional(tys.Bool, [tys.Bool])
+        for i in (0, 1):
+            case = c.add_case(i)
+            case.set_outputs(case.inputs()[0])
+        return c
+    if name == "cfg":
+        g = Cfg(tys.Bool)
+        e = g.add_entry()
+        e.set_outputs(e.inputs()[0])
+        g.branch_exit(e[0])
+        g.branch_exit(e[1])
+        return g
+    raise MachineryError(f"unknown template {name}")
+
+
+def make_stepper(root_inputs):
+    """a fresh root Dfg and a function executing one HugrBuilder event on the real builders"""
     from hugr import val
     from hugr.build.dfg import Dfg
     d = Dfg(*[W.build_type(t) for t in root_inputs])
@@ -54,7 +98,7 @@ def replay(hist, root_inputs):
     def wire(w):
         from hugr.hugr.node_port import Node
         return Node(w[0]).out(w[1])
-    for ev in hist:
+    def step(ev):
         b = builders[ev["ctx"]]
         a = ev["a"]
         if a == "AddOp":
@@ -106,21 +150,74 @@ def replay(hist, root_inputs):
         elif a == "BranchExit":
             from hugr.hugr.node_port import Node
             b.branch_exit(Node(ev["b"]).out(ev["i"]))
+        elif a == "Insert":
+            t = build_template(ev["t"])
+            ws = [wire(w) for w in ev["args"]]
+            if ev["t"] in ("id", "nestext"):
+                n = b.insert_nested(t, *ws)
+            elif ev["t"] == "loop":
+                n = b.insert_tail_loop(t, ws[:1], ws[1:])
+            elif ev["t"] == "cond":
+                n = b.insert_conditional(t, *ws)
+            else:
+                n = b.insert_cfg(t, *ws)
+            handles[n.idx] = n
         elif a == "AddTailLoop":
             nb = b.add_tail_loop([wire(w) for w in ev["just"]], [wire(w) for w in ev["rest"]])
             builders[nb.parent_node.idx] = nb
+        elif a == "AddIf":
+            if_ = b.add_if(*[wire(w) for w in ev["args"]])
+            builders[if_.parent_node.idx] = if_
+            builders[if_.conditional_node.idx] = if_            # the else branch is started from the If builder
+            conds.append(if_._parent_conditional())
         elif a == "AddCase":
-            case = b.add_case(ev["i"])
+            case = b.add_else() if hasattr(b, "add_else") else b.add_case(ev["i"])
             builders[case.parent_node.idx] = case
         elif a == "SetOutputs":
             b.set_outputs(*[wire(w) for w in ev["args"]])
-            if type(b).__name__ not in ("Case", "Function", "Block"):      # C16 names dataflow graph, CFG, conditional and tail-loop builders
+            if type(b).__name__ not in ("Case", "If", "Else", "Function", "Block"):      # C16 names dataflow graph, CFG, conditional and tail-loop builders
                 handles[b.parent_node.idx] = b.parent_node
         else:
             raise MachineryError(f"unknown builder action {a}")
-    for cb in conds + cfgs:
-        handles[cb.parent_node.idx] = cb.parent_node
-    return h, handles
+    def finish():
+        for cb in conds + cfgs:
+            handles[cb.parent_node.idx] = cb.parent_node
+        return h, handles
+    return step, finish, builders, h
+
+
+def replay(hist, root_inputs):
+    step, finish, _, _ = make_stepper(root_inputs)
+    for ev in hist:
+        step(ev)
+    return finish()
+
+
+REFUSAL_CLASSES = {"NoSiblingAncestor", "NotInSameCfg", "ConditionalError", "MismatchedExit", "ValueError", "IncompleteOp"}
+
+
+def replay_refusal(hist, root_inputs):
+    """executes a program whose last call is inconsistent; returns the class name of what that call raised, or None (silently accepted)"""
+    step, _, builders, h = make_stepper(root_inputs)
+    for ev in hist[:-1]:
+        step(ev)
+    ev = hist[-1]
+    try:
+        if ev["a"] == "Serialize":
+            h.to_json()
+        elif ev["a"] == "ExitConditional":
+            c = builders[ev["ctx"]]
+            c = c._parent_conditional() if hasattr(c, "_parent_conditional") else c
+            c.__exit__(None, None, None)
+        elif ev["a"] == "AddCase":
+            c = builders[ev["ctx"]]
+            c = c._parent_conditional() if hasattr(c, "_parent_conditional") else c
+            c.add_case(ev["i"])
+        else:
+            step(ev)
+    except Exception as e:  # noqa: BLE001
+        return type(e).__name__
+    return None
 
 
 def norm_node(n):
@@ -131,23 +228,34 @@ def norm_node(n):
     return n
 
 
-def run(ctx: Ctx, wd, handles_only: bool = False) -> None:
+def run(ctx: Ctx, wd, handles_only: bool = False, only_feature: str | None = None) -> None:
     """handles_only (C16 b): only the S->C leg, only the handle counts are judged (documents are C01's business)."""
     quick = ctx.tier == "quick"
-    DF, CO, LO, FU = DF_FEATURES, ("cond",), ("loop",), ("func",)
-    # ---- leg M: (root, K, depth, ops, features)
-    m_cfgs = ([("RootBQ", 4, 2, ALL_OPS, DF), ("RootBQ", 6, 2, ("Not", "Some"), CO), ("RootBQ", 8, 2, ("H",), CO),
-               ("RootBQ", 4, 2, ("Some", "None", "Cont", "Brk"), LO), ("RootBQ", 5, 2, ("Not", "H"), FU)] if quick else
-              [("RootBQ", 5, 2, ALL_OPS, DF), ("RootB", 5, 2, ALL_OPS, DF), ("RootBQ", 6, 3, ("Not",), ("load", "nested")),
-               ("RootBQ", 7, 2, ("Not", "Some"), CO), ("RootBQ", 8, 2, ("H", "Measure"), CO), ("RootBQ", 7, 3, ("H",), CO + ("nested",)),
-               ("RootBQ", 5, 2, ("Some", "None"), LO), ("RootBQ", 5, 2, ("Cont", "Brk", "H"), LO), ("RootBQ", 6, 3, (), LO + ("nested",)),
-               ("RootBQ", 8, 3, (), CO + LO), ("RootBQ", 6, 2, ("Not",), FU), ("RootBQ", 6, 3, ("H",), FU + ("nested",)), ("RootBQ", 7, 3, (), FU + CO)])
-    for root, k, depth, ops_, fe in ([] if handles_only else m_cfgs):
-        res = run_tlc("MC_HugrBuilder", cfg(root, k, depth, ops=ops_, features=fe), wd, workers=16, heap="10g", want_lines=False, timeout=5000)
-        tlc_must_hold(ctx, f"M HugrBuilder {root} K={k} depth<={depth} ops={','.join(ops_)} features={','.join(fe)}: Finished => Valid(Doc)", res,
-                      "HugrBuilder model")
+    DF, CO, LO, FU, CF, IN, IF = DF_FEATURES, ("cond",), ("loop",), ("func",), ("cfg",), ("insert",), ("if",)
+
+    def C(root, k, depth, ops_, fe, sk=1, ma=2):
+        return dict(root=root, k=k, depth=depth, ops=tuple(ops_), fe=tuple(fe), sk=sk, ma=ma)
+
+    def name(c):
+        return (f"{c['root']} K={c['k']} depth<={c['depth']} ops={','.join(c['ops'])} features={','.join(c['fe'])}" + (f" args<={c['ma']}" if c["ma"] != 2 else "")
+                + (f" (every {c['sk']}th)" if c["sk"] > 1 else ""))
+    # ---- leg M. (The S->C emission runs below check FinishedValid over their whole state space too; quick M legs are the configurations
+    # that are explored deeper than they are replayed.)
+    m_cfgs = ([C("RootBQ", 6, 2, ("Not", "Some"), CO), C("RootBQ", 8, 2, ("H",), CO), C("RootBQ", 4, 2, ("Some", "None", "Cont", "Brk"), LO),
+               C("RootBQ", 7, 2, ("Not", "H"), CF), C("RootBQ", 7, 3, ("H",), CO + ("nested",), ma=1), C("RootBQ", 6, 3, ("H",), FU + ("nested",), ma=1)] if quick else
+              [C("RootBQ", 5, 2, ALL_OPS, DF), C("RootB", 5, 2, ALL_OPS, DF), C("RootB", 6, 3, (), ("nested",), ma=1),
+               C("RootBQ", 7, 2, ("Not", "Some"), CO), C("RootBQ", 8, 2, ("H", "Measure"), CO), C("RootBQ", 7, 3, ("H",), CO + ("nested",), ma=1),
+               C("RootBQ", 5, 2, ("Some", "None"), LO), C("RootBQ", 5, 2, ("Cont", "Brk", "H"), LO), C("RootBQ", 6, 3, (), LO + ("nested",), ma=1),
+               C("RootBQ", 8, 3, (), CO + LO, ma=1), C("RootBQ", 6, 2, ("Not",), FU), C("RootBQ", 6, 3, ("H",), FU + ("nested",), ma=1), C("RootBQ", 7, 3, (), FU + CO, ma=1),
+               C("RootBQ", 9, 2, (), CF + ("unit",)), C("RootBQ", 7, 2, ("Not", "H"), CF), C("RootBQ", 9, 2, (), CF + ("dom",)),
+               C("RootBQ", 8, 3, (), CF + ("nested", "unit"), ma=1), C("RootBQ", 5, 2, ("Not", "H"), IN), C("RootBQ", 7, 2, ("H", "Not"), IF)])
+    for c in ([] if handles_only or only_feature else m_cfgs):
+        res = run_tlc("MC_HugrBuilder", cfg(c["root"], c["k"], c["depth"], ops=c["ops"], features=c["fe"], maxargs=c["ma"]), wd, workers=16, heap="10g",
+                      want_lines=False, timeout=5000)
+        tlc_must_hold(ctx, f"M HugrBuilder {name(c)}: Finished => Valid(Doc)", res, "HugrBuilder model")
     # ---- S->C: every distinct finished state
-    root_inputs = [{"t": "Sum", "s": "Unit", "size": 2}, {"t": "Q"}]
+    ROOTS = {"RootBQ": [{"t": "Sum", "s": "Unit", "size": 2}, {"t": "Q"}], "RootB": [{"t": "Sum", "s": "Unit", "size": 2}]}
+    cur_root = ["RootBQ"]
     n = [0]
     feats = Counter()
 
@@ -158,7 +266,7 @@ def run(ctx: Ctx, wd, handles_only: bool = False) -> None:
         ctx.evaluations += 1
         hist = ln["hist"]
         acts = [e["a"] for e in hist]
-        sig = {"source": "builder-model", "last": acts[-1]}
+        sig = {"source": "builder-model", "last": acts[-1], "root": cur_root[0]}
         if "AddNested" in acts:
             feats["nested"] += 1
             ctx.nontriv(hist)
@@ -174,6 +282,25 @@ def run(ctx: Ctx, wd, handles_only: bool = False) -> None:
                 ctx.nontriv(hist)
             if any(e["a"] == "Call" and e["ctx"] == e["f"] for e in hist):
                 feats["recursive-call"] += 1
+        if "AddCfg" in acts:
+            feats["cfg"] += 1
+            ctx.nontriv(hist)
+            if "AddSuccessor" in acts or "AddBlock" in acts:
+                feats["cfg-2-blocks"] += 1
+            if "Branch" in acts:
+                feats["cfg-branch"] += 1
+            dn = ln["doc"]["nodes"]
+            if any(e[0][1] >= 0 and dn[e[0][0]]["parent"] != dn[e[1][0]]["parent"] and dn[dn[e[0][0]]["parent"]].get("op") == "DataflowBlock"
+                   and dn[dn[e[1][0]]["parent"]].get("op") == "DataflowBlock" for e in ln["doc"]["edges"]):
+                feats["dom-wire"] += 1
+        if "Insert" in acts:
+            feats["insert"] += 1
+            ctx.nontriv(hist)
+            for e in hist:
+                if e["a"] == "Insert":
+                    feats["insert:" + e["t"]] += 1
+        if "AddIf" in acts:
+            feats["if-else"] += 1
         if "AddTailLoop" in acts:
             feats["loop"] += 1
             ctx.nontriv(hist)
@@ -182,7 +309,7 @@ def run(ctx: Ctx, wd, handles_only: bool = False) -> None:
         if any(e["a"] in ("AddOp", "SetOutputs", "AddNested", "AddConditional") and any(True for w in e["args"]) for e in hist):
             feats["wired"] += 1
         try:
-            h, handles = replay(hist, root_inputs)
+            h, handles = replay(hist, ROOTS[cur_root[0]])
             doc = json.loads(h.to_json())
         except Exception as e:  # noqa: BLE001
             if not handles_only:
@@ -214,20 +341,35 @@ def run(ctx: Ctx, wd, handles_only: bool = False) -> None:
             if idx in counts and got != counts[idx]:
                 ctx.violation(dict(sig, clauses="handle count"), {"hist": hist, "node": idx}, counts[idx], got, clause="HugrBuilder!HandleCounts", leg="S2C")
                 return
-        if len(hist) >= 3 and ("AddNested" in acts or "AddConditional" in acts or "AddTailLoop" in acts) and n[0] % 7 == 0:
+        if len(hist) >= 3 and ("AddNested" in acts or "AddConditional" in acts or "AddTailLoop" in acts or "AddCfg" in acts) and n[0] % 7 == 0:
             ctx.sample({"builder_program": hist, "expected_edges": exp["edges"]})
-    s_cfgs = ([("RootBQ", 4, 2, ALL_OPS, DF), ("RootBQ", 7, 2, ("H",), CO), ("RootBQ", 7, 2, ("Some",), CO), ("RootBQ", 4, 2, ("Some", "Cont"), LO), ("RootBQ", 5, 2, ("Not", "H"), FU)] if quick else
-              [("RootBQ", 4, 2, ALL_OPS, DF), ("RootBQ", 7, 2, ("Not",), CO), ("RootBQ", 7, 2, ("Some",), CO), ("RootBQ", 8, 2, ("H",), CO), ("RootBQ", 7, 3, ("H",), CO + ("nested",)),
-               ("RootBQ", 4, 2, ("Some", "None", "Cont", "Brk", "H"), LO), ("RootBQ", 6, 3, (), LO + ("nested",)), ("RootBQ", 8, 3, (), CO + LO), ("RootBQ", 6, 2, ("Not",), FU), ("RootBQ", 7, 3, (), FU + CO)])
+    s_cfgs = ([C("RootBQ", 4, 2, ALL_OPS, DF), C("RootBQ", 7, 2, ("H",), CO), C("RootBQ", 7, 2, ("Some",), CO), C("RootBQ", 4, 2, ("Some", "Cont"), LO),
+               C("RootBQ", 5, 2, ("Not", "H"), FU), C("RootBQ", 8, 2, (), CF), C("RootBQ", 7, 2, (), CF + ("unit",), sk=2), C("RootBQ", 9, 2, (), CF + ("dom",), sk=25),
+               C("RootBQ", 3, 2, ("Not",), IN), C("RootBQ", 6, 2, ("H",), IF), C("RootB", 6, 3, (), ("nested",), ma=1)] if quick else
+              [C("RootBQ", 4, 2, ALL_OPS, DF), C("RootBQ", 7, 2, ("Not",), CO), C("RootBQ", 7, 2, ("Some",), CO), C("RootBQ", 8, 2, ("H",), CO),
+               C("RootBQ", 7, 3, ("H",), CO + ("nested",), ma=1), C("RootBQ", 4, 2, ("Some", "None", "Cont", "Brk", "H"), LO), C("RootBQ", 6, 3, (), LO + ("nested",), ma=1),
+               C("RootBQ", 8, 3, (), CO + LO, ma=1), C("RootBQ", 6, 2, ("Not",), FU), C("RootBQ", 7, 3, (), FU + CO, ma=1),
+               C("RootBQ", 8, 2, (), CF + ("unit",)), C("RootBQ", 7, 2, ("Not", "H"), CF), C("RootBQ", 9, 2, (), CF + ("dom",), sk=2),
+               C("RootBQ", 8, 3, (), CF + ("nested", "unit"), sk=4, ma=1), C("RootBQ", 4, 2, ("Not", "H"), IN), C("RootBQ", 7, 2, ("H", "Not"), IF),
+               C("RootB", 6, 3, (), ("nested",), ma=1), C("RootBQ", 6, 3, ("H",), FU + ("nested",), ma=1)])
     if handles_only:
-        s_cfgs = ([("RootBQ", 3, 2, ALL_OPS, DF), ("RootBQ", 7, 2, ("H",), CO), ("RootBQ", 4, 2, ("Some",), LO)] if quick else
-                  [("RootBQ", 4, 2, ALL_OPS, DF), ("RootBQ", 7, 2, ("Some",), CO), ("RootBQ", 8, 2, ("H",), CO), ("RootBQ", 4, 2, ("Some", "None", "Cont", "Brk"), LO)])
-    for root, k, depth, ops_, fe in s_cfgs:
-        res = run_tlc("MC_HugrBuilder", cfg(root, k, depth, emit=True, ops=ops_, features=fe), wd, workers=1, heap="8g", line_sink=sink, timeout=5000)
-        tlc_must_hold(ctx, f"S2C HugrBuilder finished states {root} K={k} ops={','.join(ops_)} features={','.join(fe)}", res, "HugrBuilder model (emission)")
+        s_cfgs = ([C("RootBQ", 3, 2, ALL_OPS, DF), C("RootBQ", 7, 2, ("H",), CO), C("RootBQ", 4, 2, ("Some",), LO), C("RootBQ", 8, 2, (), CF), C("RootBQ", 3, 2, ("Not",), IN)] if quick else
+                  [C("RootBQ", 4, 2, ALL_OPS, DF), C("RootBQ", 7, 2, ("Some",), CO), C("RootBQ", 8, 2, ("H",), CO), C("RootBQ", 4, 2, ("Some", "None", "Cont", "Brk"), LO),
+                   C("RootBQ", 8, 2, (), CF + ("unit",)), C("RootBQ", 4, 2, ("Not", "H"), IN)])
+    if only_feature:          # (C08: only the configurations with insert_* calls; judged in full, documents and handles)
+        s_cfgs = [c for c in s_cfgs if only_feature in c["fe"]]
+    for c in s_cfgs:
+        cur_root[0] = c["root"]
+        res = run_tlc("MC_HugrBuilder", cfg(c["root"], c["k"], c["depth"], emit=True, ops=c["ops"], features=c["fe"], samplek=c["sk"], maxargs=c["ma"]), wd, workers=8,
+                      heap="8g", line_sink=sink, timeout=5000)
+        # (several workers: every new state is still judged by EmitFinished exactly once, each PrintT is one atomic line; only the order of the
+        # lines and which shortest path is recorded in `hist` vary, neither matters to the replay)
+        tlc_must_hold(ctx, f"S2C HugrBuilder finished states {name(c)}", res, "HugrBuilder model (emission)")
     ctx.note("builder_model_finished_states_replayed", n[0])
     ctx.note("builder_model_features", dict(feats))
-    need = ("nested", "cond", "loop") if handles_only else ("nested", "cond", "cond-with-outputs", "loop", "loop-just-inputs", "call", "recursive-call")
+    need = (("insert:nestext", "insert:loop", "insert:cond", "insert:cfg") if only_feature == "insert" else ("nested", "cond", "loop", "cfg", "insert") if handles_only else
+            ("nested", "cond", "cond-with-outputs", "loop", "loop-just-inputs", "call", "recursive-call", "cfg", "cfg-2-blocks", "dom-wire", "insert:nestext", "insert:loop",
+             "insert:cond", "insert:cfg", "if-else"))
     if n[0] < 50 or not all(feats[f] for f in need):
         raise MachineryError(f"builder model: only {n[0]} finished states, features {dict(feats)}")
 
@@ -241,7 +383,7 @@ def replay_case(body) -> bool:
     case = body.get("case", {})
     if not (isinstance(case, dict) and "hist" in case and body.get("sig", {}).get("source") == "builder-model"):
         return False
-    root_inputs = [{"t": "Sum", "s": "Unit", "size": 2}, {"t": "Q"}]
+    root_inputs = [{"t": "Sum", "s": "Unit", "size": 2}, {"t": "Q"}] if body.get("sig", {}).get("root", "RootBQ") == "RootBQ" else [{"t": "Sum", "s": "Unit", "size": 2}]
     for ev in case["hist"]:
         print(ev)
     try:
@@ -260,3 +402,57 @@ def replay_case(body) -> bool:
             print("handle", idx, "unknown count")
     print("clause:", body.get("clause"), "expected:", json.dumps(body.get("expected"))[:600], "observed:", json.dumps(body.get("observed"))[:600])
     return True
+
+
+def run_refusals(ctx: Ctx, wd) -> None:
+    """C13 on the builder state machine: every program of HugrBuilder.tla that ends in exactly one inconsistent call (BadNext: a wire from
+    a region that is not visible, disagreeing cases, a case index out of range / built twice, a conditional left with unbuilt cases, a
+    mismatching exit branch, outputs other than the declared ones, serializing an incomplete HUGR) is replayed on the real builders; the
+    last call must raise the error class the specification names."""
+    quick = ctx.tier == "quick"
+    roots = {"RootBQ": [{"t": "Sum", "s": "Unit", "size": 2}, {"t": "Q"}]}
+    # (root, K, depth, ops, features, MaxArgs, SampleK)
+    cfgs = ([("RootBQ", 4, 2, ("Not",), ("nested", "refuse"), 2, 1), ("RootBQ", 5, 2, ("Not",), ("cond", "if", "refuse"), 2, 5),
+             ("RootBQ", 4, 2, ("Not",), ("func", "refuse"), 2, 1), ("RootBQ", 6, 2, ("Some",), ("cfg", "refuse"), 1, 4)] if quick else
+            [("RootBQ", 4, 2, ("Not", "H"), ("nested", "load", "refuse"), 2, 1), ("RootBQ", 5, 2, ("Not",), ("cond", "if", "refuse"), 2, 1),
+             ("RootBQ", 5, 2, ("Not",), ("func", "refuse"), 2, 1), ("RootBQ", 6, 2, ("Some",), ("cfg", "refuse"), 2, 8),
+             ("RootBQ", 5, 2, ("Not",), ("cfg", "func", "refuse"), 2, 2), ("RootBQ", 5, 2, (), ("cfg", "unit", "refuse"), 2, 1),
+             ("RootBQ", 5, 3, ("Not",), ("cond", "nested", "loop", "refuse"), 1, 2)])
+    n = [0]
+    seen = Counter()
+    cur = [None]
+
+    def sink(ln):
+        if not isinstance(ln, dict) or "refused" not in ln:
+            return
+        n[0] += 1
+        ctx.evaluations += 1
+        hist, want = ln["hist"], ln["refused"]
+        last = hist[-1]
+        sig = {"source": "builder-model-refusal", "last": last["a"], "class": want}
+        try:
+            got = replay_refusal(hist, roots[cur[0]])
+        except Exception as e:  # noqa: BLE001  (a call of the well-formed prefix raised)
+            ctx.violation(dict(sig, clauses="prefix raised"), {"hist": hist}, "the well-formed prefix is accepted", repr(e)[:300], clause="HugrBuilder!Next", leg="S2C")
+            return
+        seen[f"{last['a']}:{want}"] += 1
+        if len(hist) >= 3:
+            ctx.nontriv(hist)
+        if got is None:
+            ctx.violation(dict(sig, clauses="silently accepted"), {"hist": hist}, f"raises {want}", "no error", clause="HugrBuilder!BadNext", leg="S2C")
+        elif got != want and not (want == "ValueError" and got in ("ValueError",)):
+            ctx.violation(dict(sig, clauses=f"raised {got}"), {"hist": hist}, f"raises {want}", got, clause="HugrBuilder!BadNext (documented error)", leg="S2C")
+        elif n[0] % 997 == 0:
+            ctx.sample({"inconsistent_program": hist, "raises": got})
+    for root, k, depth, ops_, fe, ma, sk in cfgs:
+        cur[0] = root
+        res = run_tlc("MC_HugrBuilder", cfg(root, k, depth, ops=ops_, features=fe, maxargs=ma, samplek=sk, emit_refused=True), wd, workers=16, heap="10g",
+                      line_sink=sink, timeout=5000)
+        tlc_must_hold(ctx, f"S2C HugrBuilder refusals {root} K={k} depth<={depth} ops={','.join(ops_)} features={','.join(fe)} args<={ma}"
+                      + (f" (every {sk}th state)" if sk > 1 else ""), res, "HugrBuilder model (refusals)")
+    ctx.note("builder_model_refusals_replayed", n[0])
+    ctx.note("builder_model_refusal_classes", dict(seen))
+    need = ("AddOp:NoSiblingAncestor", "AddOp:NotInSameCfg", "SetOutputs:ConditionalError", "AddCase:ConditionalError", "ExitConditional:ConditionalError",
+            "BranchExit:MismatchedExit", "SetOutputs:ValueError", "Serialize:IncompleteOp")
+    if not all(seen[x] for x in need):
+        raise MachineryError(f"builder model refusals: classes never exercised: {[x for x in need if not seen[x]]}")
